@@ -24,7 +24,10 @@ def check(run):
     # ---- construction histories of the concurrent set, grouped by the internal layout they build ----
     L = 3 if q else 4
     calls = [dict(op=o, k=k, v=0, s=[]) for o in ("Add", "Remove", "Has") for k in U] + [dict(op="Len", k=0, v=0, s=[])]
-    hs = [list(h) for n in range(0, L + 1) for h in itertools.product(calls, repeat=n)]
+    hs0 = [list(h) for n in range(0, L + 1) for h in itertools.product(calls, repeat=n)]
+    # ... also after a NewSetFromSlice-style prefix of Adds (longer histories at the price of three prefixes)
+    pre = [[], [dict(op="Add", k=1, v=0, s=[])], [dict(op="Add", k=1, v=0, s=[]), dict(op="Add", k=2, v=0, s=[])]]
+    hs = [p + h for p in pre for h in hs0]
     progs = [dict(setup=h, progs=[], mode="schedule", n=1, seed=1, fine=1, schedule=[], keys=U, preempt=0) for h in hs]
     _, fines = run_programs(run, "syncset", progs)
     layouts = {}
